@@ -213,11 +213,34 @@ def check_recreate_sym(ctx):
     ctx.expected_ok = len(paths) >= 2
 
 
+def check_registry(ctx):
+    b0 = ctx.sandbox_base(32, "b0")
+    b1 = ctx.sandbox_base(32, "b1")
+    ctx.assume(b0 != b1)
+    order = ctx.sym("order", 32)
+    victim = ctx.sym("victim", 32)
+    ctx.assume(z3.ULE(order, 1), z3.ULE(victim, 1))
+    mem0 = ctx.eng.initial_memory()
+    sb = z3.If(victim == 1, b0, b1)
+    rep = z3.Concat(*[z3.Select(mem0, sb + BV(0x80 + j, 64)) for j in reversed(range(4))])
+    ctx.assume(rep != 0)
+    paths = ctx.run("k_registry_exact", [b0, b1, order, victim])
+    for q in paths:
+        if q.status != "ret":
+            ctx.fail(q, "after destroying one sandbox the other one is no longer found / cannot be destroyed (%s)" % q.info)
+        else:
+            lg = [e for e in q.user["log"] if e[0] == 8]
+            ctx.require(q, (lg[0][1] if not isinstance(lg[0][1], int) else BV(lg[0][1], 64)) == sb + zext(rep, 64),
+                        "a live sandbox is found from addresses inside its memory, whichever other sandbox was created or destroyed before")
+    ctx.expect(paths, ret=4)
+
+
 def jobs(tier, seed):
     depth = 3 if tier == "quick" else 4
     src = '#include "C14_hist.inc"\n'
     fl = ["-D_GLIBCXX_EXTERN_TEMPLATE=0"]
-    extra = [Job("C14_recreate_cb", src, [dict(name="re-creation: callback registrations", fn=check_recreate_cb, unwind=400)], native=False, flags=fl),
+    extra = [Job("C14_registry", src, [dict(name="registry exactness with two sandboxes", fn=check_registry, unwind=400)], native=False, flags=fl),
+             Job("C14_recreate_cb", src, [dict(name="re-creation: callback registrations", fn=check_recreate_cb, unwind=400)], native=False, flags=fl),
              Job("C14_recreate_sym", src, [dict(name="re-creation: cached symbol addresses", fn=check_recreate_sym, unwind=400)], native=False, flags=fl)]
     return extra + [Job("C14_hist_%d" % f, src, [dict(name="lifecycle histories depth %d first op %d" % (depth, f), fn=check_hist, kw=dict(depth=depth, first=f), unwind=400)],
                 native=False, max_paths=400000, flags=fl) for f in range(NOPS)]
